@@ -94,7 +94,8 @@ MANIFEST = dict(
          "C03_index_own_step (name/[1]/tail.. = name[1]/tail..), C03_create_hidden_middle (name[0|-1]/fresh.. on a dict "
          "creates what name/fresh.. creates; C03_create_hidden_middle_own / _elem: P/[e]/fresh.. for any plain P incl. the root, "
          "..[i][e]/fresh..), C03_hidden_elem_refused (..[i][e] and ..[i]/[e], e not 0/-1, on a single value "
-         "that is an element of a list: SyntaxError, tree unchanged). The root refusal, later creation steps after name[1] "
+         "that is an element of a list: SyntaxError, tree unchanged), C03_hidden_root_refused ([e].. and //[e].. on the root, e "
+         "not 0/-1). The root [0] TypeError, later creation steps after name[1] "
          "other than fresh names and hidden indexes before element-creating steps are instances + evaluator hidden_index "
          "+ B. Hist.ValidOp still carries the conjunct about plain "
          "lists that finding C03-c needed; it is no longer used by the proof.",
